@@ -11,9 +11,15 @@ use parser::Parser;
 
 /// Evaluate a formula inside a string and compute it into f64.
 pub fn eval_number(expr: String, placeholder: Number) -> Result<Number, ParseError> {
+    #[cfg(feature = "verif_hooks")]
+    crate::verif_hooks::tick(crate::verif_hooks::Site::ApiEnter);
     let expr = expr.split_whitespace().collect::<String>();
     let mut math_parser = Parser::new(&expr, Some(placeholder))?;
+    #[cfg(feature = "verif_hooks")]
+    crate::verif_hooks::tick(crate::verif_hooks::Site::ApiLexed);
     let ast = math_parser.parse()?;
+    #[cfg(feature = "verif_hooks")]
+    crate::verif_hooks::tick(crate::verif_hooks::Site::ApiParsed);
     let result = eval(ast)?;
     Ok(result)
 }
